@@ -77,6 +77,12 @@ def absent_label(rng, ax, frac=False):
             return enc(Fraction(b[1], b[2]) + rng.choice([Fraction(1, 2), Fraction(1, 4), Fraction(-1, 4), Fraction(-1, 2)]))
     elif ax["kind"] == "f":
         cands = [enc(Fraction(k, 8)) for k in range(-20, 90)]
+        if frac and ax["labels"] and rng.random() < 0.25:
+            # a request a hair away from a stored label (well inside np.isclose's default tolerance): still absent
+            b = rng.choice(ax["labels"])
+            v = Fraction(b[1], b[2]) + rng.choice([1, -1]) * Fraction(1, 2 ** 20)
+            if tuple(enc(v)) not in present:
+                return enc(v)
     else:
         cands = [enc(s) for s in STRS + ["zz", "A", ""]]
     cands = [c for c in cands if tuple(c) not in present]
